@@ -191,7 +191,13 @@ def oracleC15 (c : PCase) (ops : List (List String)) (o : PObs) : Bool :=
     let voffs := ((videoTrack? m).map (·.ranges)).getD [] |>.map (·.1)
     let aoffs := ((audioTrack? m).map (·.ranges)).getD [] |>.map (·.1)
     let incr (l : List Nat) : Bool := (List.zip l (l.drop 1)).all fun (a, b) => a < b
-    let perTrack := incr voffs && incr aoffs && voffs.length == vs.length && aoffs.length == aus.length
+    -- "stored in sample order": the k-th table entry of a track addresses the k-th accepted frame's
+    -- bytes (otherwise increasing offsets say nothing about where the samples are stored) …
+    let stored :=
+      ((videoTrack? m).map fun vt => (vt.samples o.file).map (·.1) == vs.map (fun f => mp4PayloadFast (isAnnexB c) f.data)).getD vs.isEmpty &&
+      ((audioTrack? m).map fun at_ => (at_.samples o.file).map (·.1) == aus.map (fun f => audioPayload (isAdts c) f.data)).getD aus.isEmpty
+    -- … at increasing positions
+    let perTrack := stored && incr voffs && incr aoffs && voffs.length == vs.length && aoffs.length == aus.length
     let merged :=
       if reordered vs then true else
       -- storage order = merge by (timestamp, video first)
@@ -328,7 +334,12 @@ def oracleC06 (c : PCase) (ops : List (List String)) (o : PObs) : Bool :=
       | some (_, (.ok, n)) => n == o.file.length
       | _ => false
     let _ := c
-    before && after && statsOk
+    -- "a successful finish writes the complete file": what the sink holds is one well-formed file
+    -- (top-level boxes tile it exactly) with its ftyp and moov, whatever the sink did with the writes
+    let complete := match parseFileTree o.file with
+      | some top => (child? "ftyp" top).isSome && (child? "moov" top).isSome
+      | none => false
+    before && after && statsOk && complete
 
 def projC06 (o : PObs) : String :=
   " ".intercalate (o.replies.map fun (r, n) =>
